@@ -59,6 +59,8 @@ class World:
         self.eval_log = []
         self.action_results = []
         self.spawn_log = []
+        self.cache_capacity = cache_cap if (cache_cap is not None and cache_cap < 8) else None
+        self.evictions = []
         self.install()
 
     # ------------------------------------------------------------------ Rust value builders
